@@ -126,13 +126,21 @@ def _check_iso9660_filename(fullname, interchange_level):
     # found ISOs in the wild (FreeBSD 10.1 amd64) that do not have any version
     # number.  Allow for this.
 
-    if version != b'' and (int(version) < 1 or int(version) > 32767):
+    if version != b'' and (not version.isdigit() or int(version) < 1 or int(version) > 32767):
+        raise pycdlibexception.PyCdlibInvalidInput('ISO9660 filenames must have a version between 1 and 32767')
+
+    if version == b'' and fullname.endswith(b';'):
         raise pycdlibexception.PyCdlibInvalidInput('ISO9660 filenames must have a version between 1 and 32767')
 
     # Ecma-119 section 7.5.1 specifies that filenames must have at least one
     # character in either the name or the extension.
     if not name and not extension:
         raise pycdlibexception.PyCdlibInvalidInput('ISO9660 filenames must have a non-empty name or extension')
+
+    # The identifiers 0x00 and 0x01 are reserved for the 'dot' and 'dotdot'
+    # records (Ecma-119 section 6.8.2.2).
+    if fullname in (b'\x00', b'\x01'):
+        raise pycdlibexception.PyCdlibInvalidInput('ISO9660 filenames cannot be the reserved identifiers 0x00 or 0x01')
 
     if b';' in name or b';' in extension:
         raise pycdlibexception.PyCdlibInvalidInput('ISO9660 filenames must contain exactly one semicolon')
@@ -178,6 +186,11 @@ def _check_iso9660_directory(fullname, interchange_level):
     # character
     if not fullname:
         raise pycdlibexception.PyCdlibInvalidInput('ISO9660 directory names must be at least 1 character long')
+
+    # The identifiers 0x00 and 0x01 are reserved for the 'dot' and 'dotdot'
+    # records (Ecma-119 section 6.8.2.2).
+    if fullname in (b'\x00', b'\x01'):
+        raise pycdlibexception.PyCdlibInvalidInput('ISO9660 directory names cannot be the reserved identifiers 0x00 or 0x01')
 
     maxlen = float('inf')
     if interchange_level == 1:
